@@ -15,6 +15,12 @@ func init() {
 	zzverif.Register("VerifC03HeaderF2", VerifC03HeaderF2)
 	zzverif.Register("VerifC03HeaderF3", VerifC03HeaderF3)
 	zzverif.Register("VerifC03HeaderF4", VerifC03HeaderF4)
+	zzverif.Register("VerifC03HeaderD0", VerifC03HeaderD0)
+	zzverif.Register("VerifC03HeaderD1", VerifC03HeaderD1)
+	zzverif.Register("VerifC03HeaderD2", VerifC03HeaderD2)
+	zzverif.Register("VerifC03HeaderD3", VerifC03HeaderD3)
+	zzverif.Register("VerifC03HeaderD4", VerifC03HeaderD4)
+	zzverif.Register("VerifC03HeaderD5", VerifC03HeaderD5)
 }
 
 // transaction := date [ "=" date ] [ WS status ] [ WS "(" code ")" ] [ WS description ]
@@ -160,14 +166,14 @@ func verifC03Header(cfg c03HdrCfg) {
 	text += eol + "  a:b  1" + eol + "  c:d" + eol
 	want.NPost, want.Acct0, want.Acct1 = 2, "a:b", "c:d"
 
-	// what the real lexer makes of the first token of each free leaf (class keys)
-	if codeOff >= 0 && cx.knownTok("code", text, codeOff, TokenCode) {
+	// known-finding classes: input predicate of the leaf && the real lexer mis-lexes it
+	if codeOff >= 0 && cx.knownCode(text, codeOff, want.Code) {
 		return
 	}
-	if descOff >= 0 && cx.knownTok("desc", text, descOff, TokenText) {
+	if descOff >= 0 && cx.knownText(text, descOff) {
 		return
 	}
-	if noteOff >= 0 && cx.knownTok("desc", text, noteOff, TokenText) {
+	if noteOff >= 0 && cx.knownText(text, noteOff) {
 		return
 	}
 
@@ -229,6 +235,35 @@ func VerifC03HeaderF2() { verifC03Header(c03HeaderFocus(2)) }
 func VerifC03HeaderF3() { verifC03Header(c03HeaderFocus(3)) }
 func VerifC03HeaderF4() { verifC03Header(c03HeaderFocus(4)) }
 
-func VerifC03HeaderDeep() {
-	verifC03Header(c03HdrCfg{dateMode: 2, statusN: 3, nCode: 3, descKinds: 3, fullPN: true, nText: 4, cmnts: c03AllCmnts, nCmnt: 3, wsN: 3, eachWS: true, crlf: 1, wideFirst: 7, wideRest: 1})
+// thorough tier: the same focuses with larger bounds (the full product of all parts is out of
+// reach: every part multiplies the number of lexer paths of the others)
+func c03HeaderDeepFocus(f int) c03HdrCfg {
+	switch f {
+	case 0: // dates: every shape with every shape of secondary date, every status, each WS independent
+		return c03HdrCfg{dateMode: 2, statusN: 3, descKinds: 2, nText: 1, cmnts: []int{-1, 0}, nCmnt: 1, wsN: 2, eachWS: true}
+	case 1: // description of up to 3 characters, payee | note, all non-ASCII representatives first, é later
+		return c03HdrCfg{statusN: 3, nCode: 1, plainCode: true, descKinds: 4, nText: 3, cmnts: []int{-1, 0}, nCmnt: 1, wsN: 2, wideFirst: 7, wideRest: 1}
+	case 2: // trailing comment and tags, leaves up to 3 characters
+		return c03HdrCfg{statusN: 2, descKinds: 2, nText: 1, cmnts: c03AllCmnts, nCmnt: 3, wsN: 3, wideFirst: -1}
+	case 3: // payee and note both free, up to 2 characters each
+		return c03HdrCfg{statusN: 2, descKinds: 3, fullPN: true, nText: 2, cmnts: []int{-1, 0}, nCmnt: 1, wsN: 1, wideFirst: 3}
+	case 4: // CRLF after every kind of last token
+		return c03HdrCfg{statusN: 3, nCode: 1, descKinds: 4, nText: 2, cmnts: []int{-1, 0, 1}, nCmnt: 1, wsN: 1, crlf: 2}
+	default: // code of up to 4 characters before a description
+		return c03HdrCfg{statusN: 3, nCode: 4, descKinds: 2, nText: 1, cmnts: []int{-1, 0}, nCmnt: 1, wsN: 2, wideFirst: -1}
+	}
 }
+
+const c03HeaderDeepFocuses = 6
+
+func VerifC03HeaderDeep() {
+	verifC03Header(c03HeaderDeepFocus(zzverif.Choice("focus", c03HeaderDeepFocuses)))
+}
+
+func VerifC03HeaderDeepF(f int) { verifC03Header(c03HeaderDeepFocus(f)) }
+func VerifC03HeaderD0()        { VerifC03HeaderDeepF(0) }
+func VerifC03HeaderD1()        { VerifC03HeaderDeepF(1) }
+func VerifC03HeaderD2()        { VerifC03HeaderDeepF(2) }
+func VerifC03HeaderD3()        { VerifC03HeaderDeepF(3) }
+func VerifC03HeaderD4()        { VerifC03HeaderDeepF(4) }
+func VerifC03HeaderD5()        { VerifC03HeaderDeepF(5) }
